@@ -253,6 +253,11 @@ impl MainEvent {
         let mut wire_signals = [(); TPC_ANODE_WIRES].map(|_| None);
         let mut pad_signals = [(); TPC_PAD_COLUMNS].map(|_| [(); TPC_PAD_ROWS].map(|_| None));
         let mut trigger_timestamp = None;
+        // A wire bank can have a non-empty waveform that is nonetheless empty
+        // after removing the delay samples (hence `wire_signals` stays `None`).
+        // Keep track of seen wires separately to detect duplicates regardless
+        // of the order of the banks.
+        let mut wire_seen = [false; TPC_ANODE_WIRES];
         // Need to group chunks by board and chip.
         let mut pwb_chunks_map: HashMap<_, Vec<_>> = HashMap::new();
 
@@ -281,11 +286,12 @@ impl MainEvent {
 
                     let wire_position = TpcWirePosition::try_new(run_number, board_id, channel_id)?;
                     let wire_index = usize::from(wire_position);
-                    if wire_signals[wire_index].is_some() {
+                    if wire_seen[wire_index] {
                         return Err(TryMainEventFromDataBanksError::DuplicateWireBank {
                             bank_name,
                         });
                     } else {
+                        wire_seen[wire_index] = true;
                         let baseline = try_wire_baseline(run_number, wire_position)?;
                         let gain = try_wire_gain(run_number, wire_position)?;
                         let delay = try_wire_delay(run_number)?;
